@@ -39,6 +39,7 @@ NSinL(a)    == <<a>>
 NCosL(a)    == <<a>>
 NExpL(a)    == <<a>>
 NLogL(a)    == <<a>>           \* val(a) > 0
+NErfL(a)    == <<a>>           \* the error function 2/sqrt(pi) int_0^a exp(-s^2) ds
 NSqrtL(a)   == <<a>>           \* val(a) >= 0
 NPowL(a, b) == <<a, b>>        \* val(a)^val(b); integer b for any a, otherwise val(a) > 0
 NAbsL(a)    == <<a>>
